@@ -35,6 +35,7 @@ def run(ctx):
     chk.explanation = EXPLANATION
     r4_values_stored_unchanged(chk, fx)
     r5_setters_store_unchanged(chk, fx)
+    r6_emission_independent_of_text(chk, fx)
     chk.assumptions += ["quick-xml 0.31: BytesText::new and Attribute::from((&str,&str)) escape < > & ' \"; Attribute::from((&[u8],&[u8])) and Attribute{..} store the value verbatim"]
     impls = [i for i in fx.item_list if i["kind"] == "Impl" and i.get("trait") == "netconf::message::WriteXml" and "::tests::" not in i["qdef"] and "tests::" not in i.get("self", "")]
     chk.floor("C10 WriteXml impls", len(impls), 30)
@@ -463,3 +464,31 @@ def r5_setters_store_unchanged(chk, fx):
                          key="C10/R5 %s stores-a-rewritten-value %s" % (T.short(T.strip_generics(n), 3), pn),
                          detail=None if not foreign else "what is sent is %s of the caller's value" % sorted(set(foreign))[:4])
     chk.floor("C10/R5 setter parameters decided", decided, 3)
+
+
+# ---------------------------------------------------------------------------------------------
+def r6_emission_independent_of_text(chk, fx):
+    """Whether a parameter is written is decided by whether the caller set it — not by what its text looks like.  A writer that leaves an
+    element out because the caller's string is empty, blank, or "looks like a default" sends a different request (an absent <filter>
+    selects everything, an empty one nothing).  Over the explored paths of every operation's write_xml: no branch condition is a
+    function of the *text* of a value held in self (str / String methods over a field of self)."""
+    from vlib import absint as A
+    names = sorted(n for n in fx.thir if n.endswith("as netconf::message::WriteXml>::write_xml") and "::operation::" in n and "{closure" not in n and "::tests::" not in n)
+    n_ok = 0
+    for n in names:
+        def hook(fn, args, node, interp):
+            # the children of an element are written by the closure handed to write_inner_content: run it
+            if T.short(fn, 2) == "ElementWriter::write_inner_content" and len(args) == 2:
+                return interp.apply(args[1], [("sym", "WRITER")], node, 0)
+            return None
+        try:
+            paths = A.Interp(fx, hook=hook, crates=("netconf",), max_paths=1500).explore(n)
+        except A.Undecided:
+            continue
+        n_ok += 1
+        bad = sorted({k for p in paths for k, v in p.assume.items()
+                      if isinstance(v, bool) and "«param:self»" in k and ("str::" in k or "String::" in k or "char::" in k)})
+        chk.instance("C10/R6", "%s: what is written does not depend on the text of a caller's value" % T.short(n, 3).replace("message::", ""), n, loc_of(fx.thir[n].get("sp")),
+                     holds=not bad, key="C10/R6 %s emission-depends-on-text" % T.short(T.strip_generics(n), 4),
+                     detail=None if not bad else "branches on %s" % bad[0][:120])
+    chk.floor("C10/R6 operation writers explored", n_ok, 15)
